@@ -198,6 +198,39 @@ def do_dtype(req):
     kerneldll.compile_model = real_compile
 
 
+def leaf_bits(model):
+    """Precision (bits) of every compiled leaf of a possibly composite model object."""
+    out = []
+    for attr in ("parts",):
+        if hasattr(model, attr):
+            for p in getattr(model, attr):
+                out += leaf_bits(p)
+            return out
+    if hasattr(model, "P") and hasattr(model, "S"):
+        return leaf_bits(model.P) + leaf_bits(model.S)
+    return [int(np.dtype(model.dtype).itemsize * 8)]
+
+
+def do_dtypec(req):
+    """Composite models (P@S, A+B, A*B): a precision request reaches every part as it reaches a plain model."""
+    from sasmodels import core
+    tid = req.get("first_tid", 1)
+    for expr in req["models"]:
+        first_leaf = expr.replace("@", "+").replace("*", "+").split("+")[0]
+        for sp in req["spellings"]:
+            ev = {"tid": tid, "ev": "DtypeC", "model": expr, "spelling": sp, "raised": False, "error": "",
+                  "plain_bits": 0, "model_bits": 0, "part_bits": []}
+            tid += 1
+            try:
+                ev["plain_bits"] = int(np.dtype(core.load_model(first_leaf, dtype=sp, platform="dll").dtype).itemsize * 8)
+                m = core.load_model(expr, dtype=sp, platform="dll")
+                ev["model_bits"] = int(np.dtype(m.dtype).itemsize * 8)
+                ev["part_bits"] = leaf_bits(m)
+            except Exception as exc:
+                ev.update(raised=True, error="%s: %s" % (type(exc).__name__, str(exc)[-800:]))
+            emit(ev)
+
+
 def do_agree(req):
     from sasmodels import core, generate, kerneldll
     tid = req.get("first_tid", 1)
@@ -236,7 +269,7 @@ def do_list(req):
 
 def main():
     req = json.load(sys.stdin)
-    {"list": do_list, "conv": do_conv, "sources": do_sources, "dtype": do_dtype, "agree": do_agree}[req["mode"]](req)
+    {"list": do_list, "conv": do_conv, "sources": do_sources, "dtype": do_dtype, "dtypec": do_dtypec, "agree": do_agree}[req["mode"]](req)
     sys.stdout.flush()
 
 
